@@ -26,6 +26,22 @@ var (
 
 func modn(x *big.Int) *big.Int { return x.Mod(x, N) }
 
+// ExtremeX1Nonces are nonces k whose point [k]G has an abscissa in the top 2^-32 of the field (x1 >= 2n - 2^256), so that
+// e + x1 can reach 2n for a large digest. Such k cannot be constructed, only searched for (about 2^32 point additions); the one
+// below was found by such a walk and is kept as a corpus seed; it is re-validated with sm2ref when the package is initialised
+// (an entry that does not have the property is dropped).
+var ExtremeX1Nonces []*big.Int
+
+func init() {
+	k0, _ := new(big.Int).SetString("2030000000036E83", 16)
+	lim := new(big.Int).Sub(new(big.Int).Lsh(N, 1), T256) // 2n - 2^256
+	for _, k := range []*big.Int{k0, new(big.Int).Sub(N, k0)} {
+		if pt := sm2ref.Mul(k, sm2ref.G); !pt.Inf && pt.X.Cmp(lim) >= 0 {
+			ExtremeX1Nonces = append(ExtremeX1Nonces, k)
+		}
+	}
+}
+
 // ScalarShape draws a value in [1, n-1] with a labelled shape.
 func ScalarShape(t *rapid.T, label string) (*big.Int, string) {
 	cls := gen.Pick(t, label+".shape", "uniform", "uniform", "lead00", "tiny", "top")
@@ -178,7 +194,10 @@ func DrawSignCase(t *rapid.T) SignCase {
 	c.D, c.DEnc, kcls = PrivKey(t, "d")
 	c.Classes = append(c.Classes, "key:"+kcls)
 	r := gen.Rand(t, "content")
-	mode := gen.Pick(t, "mode", "plain", "plain", "shaped", "shaped", "r=0", "r+k=n", "s=0")
+	mode := gen.Pick(t, "mode", "plain", "plain", "shaped", "shaped", "r=0", "r+k=n", "s=0", "extreme-x1")
+	if mode == "extreme-x1" && len(ExtremeX1Nonces) == 0 {
+		mode = "plain"
+	}
 	var eDep []*big.Int // e-dependent rejected candidates (all for the same e)
 	var eDepReason string
 	var good *big.Int
@@ -187,6 +206,19 @@ func DrawSignCase(t *rapid.T) SignCase {
 		c.E = gen.RandBytes(r, 32)
 		if gen.Int(t, "e.ext", 0, 5) == 0 {
 			c.E, _ = gen.Bytes32(t, "e")
+		}
+	case "extreme-x1":
+		// a nonce whose x([k]G) is within 2^224 of p, with a digest at the top of the 256-bit range: e + x1 >= 2n
+		good = ExtremeX1Nonces[gen.Uniform(t, "xk", 0, len(ExtremeX1Nonces)-1)]
+		switch gen.Pick(t, "xe", "allFF", "top", "n+", "uniform") {
+		case "allFF":
+			c.E = gen.Pad32(new(big.Int).Sub(T256, one))
+		case "top":
+			c.E = gen.Pad32(new(big.Int).Sub(T256, big.NewInt(int64(gen.Int(t, "eoff", 1, 100000)))))
+		case "n+":
+			c.E = gen.Pad32(new(big.Int).Add(N, big.NewInt(int64(gen.Int(t, "eoff", -1000, 1000)))))
+		default:
+			c.E = gen.RandBytes(r, 32)
 		}
 	case "shaped":
 		// choose which of r, s, t gets the shape
